@@ -162,6 +162,29 @@ pub fn run(cfg: &Cfg) -> Report {
             symbols.push(gen::random_branching(&mut rng0, &s, gen::BOUNDARY_VS));
         }
     }
+    // branching numbers around the sign bit of the machine word, on orbits of length 1 only (m = r * v has to
+    // stay representable): comparisons of degrees as signed and as unsigned numbers part company here
+    const SIGN_VS: &[usize] = &[1 << 62, (1 << 63) - 1, 1 << 63, (1 << 63) + 1, (1 << 63) + (1 << 62), usize::MAX - 1, usize::MAX];
+    for s in gen::connected_sets_upto(2, 4).into_iter().chain(gen::connected_sets_upto(3, 3)) {
+        for _ in 0..cfg.tier.pick(6, 40) {
+            let mut x = s.clone();
+            let mut huge = 0;
+            for (i, _, members, r) in gen::adjacent_orbits(&s) {
+                let v = if r == 1 && rng0.chance(2, 3) {
+                    huge += 1;
+                    *rng0.pick(SIGN_VS)
+                } else {
+                    1 + rng0.below(3)
+                };
+                for e in members {
+                    x.v[i][e] = v;
+                }
+            }
+            if huge > 0 {
+                symbols.push(x);
+            }
+        }
+    }
     // large structured sets with few distinct branching numbers (many automorphisms, many tied seeds)
     for (_, s) in gen::structured_2d_sets().into_iter().chain(gen::structured_3d_sets()) {
         if s.n <= cfg.tier.pick(130, 400) {
@@ -284,6 +307,60 @@ pub fn run(cfg: &Cfg) -> Report {
         ctx.nontrivial(digest(&("huge", n)));
     });
     report.absorb(ctx);
+
+    // long ties: a strip with branching 1 everywhere except one (1,2)-orbit slightly off the middle. The two
+    // end seeds produce traversal codes that agree for tens of thousands of entries and differ only where the
+    // marked orbit is reached, so whichever end is numbered first the comparison has to be carried through
+    // (a seeded change capped the lazy comparison at 2^16 code entries and called the rest a tie).
+    let long_ties: &[(usize, usize)] = &[(26_300, 13_130), (20_000, 10_011), (32_768, 16_400), (140_000, 70_020)];
+    let ctx = par_range(cfg, cfg.tier.pick(3, 4), |ctx, k| {
+        let mut rng = Rng::stream(seed, 0x03_c000 + k as u64);
+        let (n, at) = long_ties[k];
+        let mut m = gen::strip_2d(n, false);
+        // (1,2)-orbits of the strip: {1}, {2,3}, {4,5}, ..., {n}
+        let d0 = at - at % 2;
+        m.v[1][d0] = 3;
+        m.v[1][d0 + 1] = 3;
+        let input = || json!({"symbol": format!("strip_2d({}) with v12 = 3 on the orbit {{{},{}}}", n, d0, d0 + 1)});
+        if !m.is_valid_symbol() {
+            ctx.inconclusive.push("harness: long-tie strip is not a valid symbol".into());
+            return;
+        }
+        ctx.eval();
+        let c = match ctx.no_panic("derived::canonical", input, lib_canonical(&m, false)) {
+            Some(c) => c,
+            None => return,
+        };
+        let marked = |x: &MSym| (1..=x.n).filter(|&d| x.v[1][d] == 3).collect::<Vec<_>>();
+        if !c.is_valid_symbol() || c.n != m.n || marked(&c).len() != 2 || !c.is_connected() {
+            ctx.violation("canonical-form-not-isomorphic-to-input", "derived::canonical", input(), json!({"size": c.n, "marked": marked(&c)}), "valid symbol with the same degrees");
+            return;
+        }
+        for which in 0..3 {
+            let p = match which {
+                0 => { let mut r = vec![0]; r.extend((1..=n).rev()); r }
+                1 => rng.perm1(n),
+                _ => { let mut r = vec![0]; r.extend((1..=n).map(|d| (d + n / 3) % n + 1)); r }
+            };
+            ctx.eval();
+            match lib_canonical(&m.renumbered(&p), which == 1) {
+                Ok(cp) => {
+                    if cp != c {
+                        ctx.violation("renumbering-changes-canonical-form", "derived::canonical", input(), json!({"renumbering": (["reversal", "random", "rotation"][which]), "marked_in_canonical": marked(&c), "marked_in_canonical_of_renumbered": marked(&cp)}), "every renumbering yields the same canonical form");
+                        return;
+                    }
+                }
+                Err(pn) => {
+                    ctx.violation(&format!("panic@{}", pn.short_loc()), "derived::canonical", input(), pn.to_json(), "no panic");
+                    return;
+                }
+            }
+        }
+        ctx.count("long_tie_symbols");
+        ctx.nontrivial(digest(&("long-tie", n, at)));
+    });
+    report.absorb(ctx);
+    report.require_counter("long_tie_symbols", 3);
 
     // larger connected symbols built by the library's own cover machinery, each validated as a
     // genuine symbol by the model before use (self-validating generator)
